@@ -1,7 +1,7 @@
 #!/usr/bin/env python3
 import json,glob,sys
 pat=sys.argv[1] if len(sys.argv)>1 else '*'
-for f in sorted(glob.glob(f'/verif/replays/{pat}.json')):
+for f in sorted(glob.glob(f'{pat}.json')):
     d=json.load(open(f))
     print('==',f.split('/')[-1]); print(d['msg'][:500])
     sc=d['scenario']
